@@ -11,6 +11,7 @@ import (
 	"os"
 	"os/exec"
 	"runtime"
+	"strconv"
 	"sync"
 	"time"
 )
@@ -34,6 +35,10 @@ type worker struct {
 func NewPool(n int, args ...string) *Pool {
 	if n <= 0 {
 		n = runtime.NumCPU()
+		// VERIF_WORKERS caps the worker subprocesses (background sweeps next to other work)
+		if k, err := strconv.Atoi(os.Getenv("VERIF_WORKERS")); err == nil && k > 0 {
+			n = k
+		}
 	}
 	return &Pool{N: n, Args: args, Timeout: 300 * time.Second}
 }
